@@ -6,7 +6,7 @@ after the generator `e.select(context)` has been exhausted), where the state is
 
 Where the state goes, construct by construct (line numbers: /repo HEAD):
   * step (`_xpath1_axes.py`): the axis generator mutates and restores (EPV/Model/AxesState.lean);
-    the namespace axis assigns `context.item` for every matching namespace node and never restores
+    the namespace axis assigns `context.item` for every matching namespace node and gives it back in a `finally`
   * `[`  (`select__predicate`): `self[0].select_with_focus(context)` saves `status`, (non-axis tokens:
     sets `axis = None` first), runs the base expression on the SAME context, then loops assigning
     item / position / size, each predicate on `copy(context)`; `status` written back at the end
@@ -19,8 +19,7 @@ Where the state goes, construct by construct (line numbers: /repo HEAD):
   * `not(…)`: its argument on `copy(context)` (`boolean_value` abandons that generator at the first
     node; since fix 1b26724 nothing of it reaches the caller)
 `EPV/Lemmas/AxesEvalState.lean` proves that the values are those of the pure evaluator `eval` and that
-every path-valued expression gives the caller's context back unchanged (except a trailing namespace
-step, which leaves `item` on the last selected namespace node).
+every typed expression gives the caller's context back unchanged.
 -/
 import EPV.Model.AxesState
 namespace EPV.XP
@@ -44,15 +43,16 @@ def SCtx.ofFocus (f : Focus) : SCtx := ⟨f.item, none, f.pos, f.size⟩
 def stepS (m : Mode) (a : Arr) (ax : Axis) (t : Test) (abbr : Bool) (c : SCtx) : List Nat × SCtx :=
   if ax == .namespace then
     -- `for item in elem.namespace_nodes: if name matches: context.item = item; yield item`
+    -- …; `finally: context.item = elem` gives the focus back (fix ca057dd)
     let l := (iterNamespaces a c.item).filter (matchTest m a .ns t)
-    (l, { c with item := (l.getLast?).getD c.item })
+    (l, c)
   else if abbr && ax == .child then
     -- the test token itself: `iter_matching_nodes` / `iter_children_or_self`
     let tr := exec (prog m a .child c.ia) c.ia
     (if c.axis.isSome then testAtYield m a t c.ia else (tr.1.map (·.1)).filter (matchTest m a .elem t),
      c.setIA tr.2)
   else
-    let tr := exec (prog m a ax c.ia) c.ia
+    let tr := exec (axisProg m a ax c.ia) c.ia
     (tr.1.flatMap fun yc => testAtYield m a t yc.2, c.setIA tr.2)
 
 /-- the loop of `select_with_focus`: item / position / size assigned per iteration, the body `g` runs
@@ -141,12 +141,5 @@ where
     | some false => (match ebv y with | some b => .bool b | none => .err)
     | some true => .bool true
     | none => .err
-
-/-- expressions whose last action is a namespace step on the caller's context -/
-def nsTail : Expr → Bool
-  | .step ax _ _ => ax == .namespace
-  | .paren e => nsTail e
-  | .count e => nsTail e
-  | _ => false
 
 end EPV.XP
